@@ -68,6 +68,10 @@ type Machine struct {
 	Events   []Event
 	// FactDefault lets a configuration pre-decide named facts (e.g. "streq:..."), bypassing forks.
 	Facts map[string]int
+	// FactPrefixDefault pre-decides string-equality facts by suffix (e.g. "==Plain").
+	FactPrefixDefault map[string]int
+	// ForkStringEquality: explore both outcomes of undecided string equalities instead of assuming "different".
+	ForkStringEquality bool
 }
 
 type frame struct {
@@ -138,6 +142,19 @@ func (m *Machine) undecided(format string, args ...any) *RunError {
 func (m *Machine) Decide(key string, n int, note string) int {
 	if v, ok := m.Facts[key]; ok {
 		return v
+	}
+	if strings.HasPrefix(key, "streq:") {
+		for suf, v := range m.FactPrefixDefault {
+			if strings.HasSuffix(key, suf) {
+				m.Assume("synthesised identifiers differ from the generator's reserved names (" + strings.TrimPrefix(suf, "==") + ")")
+				return v
+			}
+		}
+		if !m.ForkStringEquality {
+			// distinct atoms stand for distinct strings unless a family equates them explicitly (Facts)
+			m.Assume("distinct symbolic names denote distinct strings, different from the concrete names of the run (coincidences are explored by dedicated collision families)")
+			return 0
+		}
 	}
 	if v, ok := m.decided[key]; ok {
 		return v
@@ -878,7 +895,8 @@ func (m *Machine) Run(script []int, entry func()) (err *RunError) {
 				err = re
 				return
 			}
-			panic(r)
+			// an internal failure of the analyser is an undecided run, never a pass
+			err = &RunError{Kind: "undecided", Msg: fmt.Sprintf("analyser failure: %v", r), Pos: m.curPos(), Stack: m.stackTrace()}
 		}
 	}()
 	entry()
